@@ -938,6 +938,16 @@ Proof.
   rewrite forallb_app. cbn [forallb]. rewrite Vk, Vc. reflexivity.
 Qed.
 
+Lemma retighten_nt st p st' : retighten st p = Ok st' -> NT st -> NT st'.
+Proof.
+  unfold retighten. intros H V. destruct p as [item|]; [|inversion H; subst; exact V].
+  destruct (parent_of item (ps_root st)) as [lid|]; [|inversion H; subst; exact V].
+  destruct (get st lid) as [l| |] eqn:G; cbn [bind] in H; try discriminate H.
+  destruct (bi_open (binf l)); [inversion H; subst; exact V|].
+  destruct (bval l) eqn:Ev; try (inversion H; subst; exact V).
+  eapply modify_info_nt; [exact V | exact H |]. intros n Fn. reflexivity.
+Qed.
+
 Lemma finalize_nt o st id p st' : finalize o st id = Ok (p, st') -> NT st -> NT st'.
 Proof.
   intros F V. unfold finalize in F.
@@ -946,6 +956,7 @@ Proof.
   mstep F. clear E1.
   destruct (bi_val (binf a)) eqn:Ev; try discriminate Ka; mon F;
   repeat first [ apply NT_st_refmap
+               | (eapply retighten_nt; [eassumption|])
                | (eapply bdetach_nt; [eassumption|])
                | (eapply modify_info_nt; [exact V | eassumption |
                     intros n Fn; rewrite E in Fn; inversion Fn; subst; cbn; rewrite ?Ev; reflexivity]) ].
